@@ -157,6 +157,37 @@ pub fn check_tail(c: &TailCase) -> CheckResult {
     ok(c.tail >= 3 * CS as u64, format!("{:?}/tail{}", c.mode, if c.tail >= 1 << 20 { ">=1MiB" } else { "<1MiB" }))
 }
 
+/// Process level: the real binary on a large sparse file; peak resident set size (GNU time %M) must not grow with the size.
+#[derive(Clone, Debug, Serialize, Deserialize)]
+pub struct ProcCase { pub mib: u64, pub pass_mode: bool }
+fn timed(args: &[&str], env: &[(&str, &str)], cwd: &std::path::Path) -> Result<(i32, u64, String), String> {
+    let mut c = std::process::Command::new("/usr/bin/time"); c.arg("-f").arg("MAXRSS_KB=%M").arg(crate::cli::kestrel_bin()).args(args).env_clear().current_dir(cwd).stdin(std::process::Stdio::null()).stdout(std::process::Stdio::null());
+    for (k, v) in env { c.env(k, v); }
+    let out = c.output().map_err(|e| format!("cannot run /usr/bin/time: {}", e))?; let err = String::from_utf8_lossy(&out.stderr).into_owned();
+    let kb = err.lines().filter_map(|l| l.strip_prefix("MAXRSS_KB=")).filter_map(|v| v.trim().parse::<u64>().ok()).last().ok_or_else(|| format!("no RSS figure in {:?}", err))?;
+    Ok((out.status.code().unwrap_or(-1), kb, err))
+}
+pub fn check_process(c: &ProcCase) -> CheckResult {
+    if !std::path::Path::new("/usr/bin/time").exists() { return ok(false, "skipped:no-gnu-time"); }
+    let id = super::c13::ids(); let sb = crate::cli::Sandbox::new();
+    sb.write("keys.txt", crate::cli::keyring_text(&[(&id.alice, true), (&id.bob, true)]).as_bytes());
+    let mut peaks = Vec::new();
+    for mib in [1u64, c.mib] {
+        let f = std::fs::File::create(sb.path("big.bin")).map_err(|e| e.to_string())?; f.set_len(mib << 20).map_err(|e| e.to_string())?; drop(f);
+        let (enc, dec): (Vec<&str>, Vec<&str>) = if c.pass_mode { (vec!["password", "encrypt", "big.bin", "-o", "big.ktl", "--env-pass"], vec!["password", "decrypt", "big.ktl", "-o", "/dev/null", "--env-pass"]) } else { (vec!["encrypt", "big.bin", "-t", "bob", "-f", "alice", "-k", "keys.txt", "-o", "big.ktl", "--env-pass"], vec!["decrypt", "big.ktl", "-t", "bob", "-k", "keys.txt", "-o", "/dev/null", "--env-pass"]) };
+        let (pe, pd) = if c.pass_mode { ("pw", "pw") } else { (id.alice.password.as_str(), id.bob.password.as_str()) };
+        let (rc, ekb, err) = timed(&enc, &[("KESTREL_PASSWORD", pe)], &sb.dir)?; if rc != 0 { return Err(format!("encrypting {} MiB failed: {}", mib, err)); }
+        let clen = std::fs::metadata(sb.path("big.ktl")).map(|m| m.len()).unwrap_or(0); let chunks = (mib << 20) / 65536;
+        if clen != (mib << 20) + 32 * chunks + if c.pass_mode { 36 } else { 132 } { return Err(format!("ciphertext of {} MiB is {} bytes", mib, clen)); }
+        let (rc, dkb, err) = timed(&dec, &[("KESTREL_PASSWORD", pd)], &sb.dir)?; if rc != 0 { return Err(format!("decrypting {} MiB failed: {}", mib, err)); }
+        peaks.push((ekb, dkb));
+    }
+    let ((e1, d1), (en, dn)) = (peaks[0], peaks[1]);
+    if en > e1 + 8192 || dn > d1 + 8192 { return Err(format!("peak resident memory of the tool grows with the file: encrypt {} KB -> {} KB, decrypt {} KB -> {} KB (1 MiB -> {} MiB)", e1, en, d1, dn, c.mib)); }
+    if en > 100 * 1024 || dn > 100 * 1024 { return Err(format!("peak resident memory above 100 MiB (encrypt {} KB, decrypt {} KB)", en, dn)); }
+    ok(true, format!("process/{}MiB/{}", c.mib, if c.pass_mode { "pass" } else { "key" }))
+}
+
 pub fn run(ctx: &Ctx) {
     set_rule("C11", "(size from {0, 1, 65535, 65536, 65537, 3*65536, ...} and log-uniform up to the tier bound, mode, read-size pattern): the plaintext is a function of the offset produced on the fly, encryption output is piped through a bounded pre-allocated ring into decryption on a second thread, the final sink compares every buffer with the generator. Oracles: thread-local peak live heap of each library call <= the same call on a 256 KiB input + 128 KiB and <= 4 MiB (+34 MiB with scrypt); with full reads, when more than two further chunks have been consumed the earlier chunk has been written (both directions, inline counters); every byte and the total length arrive intact. Non-trivial = size >= 3 chunks; distinct by (size, mode, pattern)");
     ctx.assume("the harness objects allocate nothing during the measured calls, so thread-local heap figures are the library's alone");
@@ -167,6 +198,8 @@ pub fn run(ctx: &Ctx) {
     ctx.sse_vec("pipe_like_reads", "512-byte and half-buffer reads (a short read is a whole chunk): the lag bound counts chunks, not bytes", vec![Case { size: 300_000, mode: Mode::Key, seed: 11, read_var: 3 }, Case { size: 100_000, mode: Mode::Pass, seed: 12, read_var: 3 }, Case { size: 1 << 20, mode: Mode::Key, seed: 13, read_var: 2 }, Case { size: 1 << 20, mode: Mode::Key, seed: 14, read_var: 1 }], check);
     ctx.pbt("sizes", ctx.n(48, 300), || (prop_oneof![2 => 0u64..400_000, 6 => (17u32..=maxlog, 0u64..1000).prop_map(|(e, m)| (1u64 << e) + ((1u64 << e) * m / 1000))], prop_oneof![3 => Just(Mode::Key), 1 => Just(Mode::Pass)], any::<u64>(), 0u8..4).prop_map(|(size, mode, seed, read_var)| { let size = if read_var == 3 { size.min(2 << 20) } else { size }; Case { size, mode, seed, read_var } }), check);
     ctx.sse_vec("data_after_final_chunk", "a complete file followed by 0 B .. 64 MiB of further input, both modes: decryption memory stays at the small-file level", [0u64, 1, 70_000, 1 << 20, 64 << 20].iter().flat_map(|&tail| [Mode::Key, Mode::Pass].map(move |mode| TailCase { tail, mode, seed: tail + 7 })).collect(), check_tail);
+    let pm = if ctx.quick() { 64 } else { 1024 };
+    ctx.sse_vec("process_peak_rss", &format!("the binary on a sparse {} MiB file vs a 1 MiB file, both modes: peak RSS (GNU time) must not grow", pm), vec![ProcCase { mib: pm, pass_mode: false }, ProcCase { mib: pm, pass_mode: true }], check_process);
     if !ctx.quick() { ctx.sse_vec("five_gib", "one 5 GiB stream (crosses 2^32 bytes and 65536 chunks)", vec![Case { size: 5 << 30, mode: Mode::Key, seed: 5, read_var: 0 }], check); }
     let b = BASELINE.lock().unwrap(); ctx.put("baseline_peak_256KiB", serde_json::json!(b.iter().map(|(m, e, d)| serde_json::json!({"mode": format!("{:?}", m), "encrypt_peak": e, "decrypt_peak": d})).collect::<Vec<_>>()));
 }
